@@ -99,7 +99,10 @@ PROPS = {
         assumptions=["ECDSA signatures are randomised: the model emits which key must sign which message, the harness verifies the implementation's signatures with python-ecdsa",
                      "partial: transactions above MAX_BLOCK_SIZE (about 1,979 inputs) are the known finding D7"]),
     "C15": dict(
-        lean_core=["Props.GenTie.Params", "Props.C15"], lean_code=["Props.GenTie.WalletSaveRule"], gen_funcs=["save_wallet_effects"], harness="c15",
+        lean_core=["Props.GenTie.Params", "Props.C15"], lean_code=["Props.GenTie.WalletSaveRule", "Props.GenTie.WalletKeysRule"],
+        gen_funcs=["save_wallet_effects", "hand_out_effects", "restore_effects"], harness="c15",
+        code_deps={"Props.GenTie.WalletSaveRule": ["save_wallet_effects"],
+                   "Props.GenTie.WalletKeysRule": ["hand_out_effects", "restore_effects"]},
         assumptions=["restore_annotated_public_key is the documented inverse of a hand-out", "JSON text layer is CPython's; the hex layer is modelled",
                      "atomicity with respect to process crashes (rename is atomic, writes append); OS crashes are not modelled"]),
     "C19": dict(
